@@ -20,6 +20,7 @@ import (
 	"strings"
 
 	"github.com/hneemann/parser2"
+	"github.com/hneemann/parser2/funcGen"
 	"github.com/hneemann/parser2/value"
 )
 
@@ -44,6 +45,70 @@ type c03Table struct {
 	Idents  []c03Ident        `json:"idents"`
 	MapThis string            `json:"map_this"` // AddMap(this) on top of the chain, "" = none
 	Value   bool              `json:"value"`    // the table of value.New().GetParser()
+	Decls   []c03Decl         `json:"decls,omitempty"` // the table is built through the funcGen API with these declarations; Ops is the PROMISED order
+}
+
+// one declaration of a binary operator through the generator API
+type c03Decl struct {
+	API    string `json:"api"` // AddOp AddOpImpl AddOpPure AddSimpleOp AddOpBehind
+	Anchor string `json:"anchor"`
+	Op     string `json:"op"`
+}
+
+// the table the API documentation promises: AddOp* append (lowest priority first), AddOpBehind(behind, new) puts the new
+// operator right behind the given one in the priority list (one level above it), behind = "" appends
+func c03Promised(decls []c03Decl) []string {
+	var tbl []string
+	for _, d := range decls {
+		if d.API != "AddOpBehind" || d.Anchor == "" {
+			tbl = append(tbl, d.Op)
+			continue
+		}
+		var nt []string
+		for _, o := range tbl {
+			nt = append(nt, o)
+			if o == d.Anchor {
+				nt = append(nt, d.Op)
+			}
+		}
+		tbl = nt
+	}
+	return tbl
+}
+
+func (t *c03Table) funcGenParser() *parser2.Parser[string] {
+	g := funcGen.New[string]().
+		SetNumberParser(parser2.NumberParserFunc[string](c03NumberParser)).
+		SetStringConverter(parser2.StringConverterFunc[string](func(s string) string { return "s:" + s }))
+	for _, d := range t.Decls {
+		switch d.API {
+		case "AddOp":
+			g.AddOp(d.Op, false, funcGen.OperatorFunc[string](nil))
+		case "AddOpImpl":
+			g.AddOpImpl(d.Op, true, funcGen.OperatorFunc[string](nil))
+		case "AddOpPure":
+			g.AddOpPure(d.Op, false, funcGen.OperatorFunc[string](nil), false)
+		case "AddSimpleOp":
+			g.AddSimpleOp(d.Op, false, nil)
+		case "AddOpBehind":
+			g.AddOpBehind(d.Anchor, d.Op, false, funcGen.OperatorFunc[string](nil), true)
+		default:
+			panic("bad declaration " + d.API)
+		}
+	}
+	for i, u := range t.Unary {
+		if i%2 == 0 {
+			g.AddUnary(u, funcGen.UnaryOperatorFunc[string](nil))
+		} else {
+			g.AddUnaryFunc(u, funcGen.UnaryOperatorFunc[string](nil))
+		}
+	}
+	g.SetOptimizer(nil)
+	p := g.GetParser()
+	if len(t.Alias) > 0 {
+		p.TextOperator(t.Alias)
+	}
+	return p
 }
 
 var c03BaseIdents = []c03Ident{{"a", "var"}, {"b", "var"}, {"c", "var"}, {"x1", "var"}, {"a b", "var"}, {"pi", "const"}, {"k", "const"}, {"f", "func"}, {"sin", "func"}}
@@ -97,6 +162,9 @@ func c03NumberParser(n string) (string, error) {
 }
 
 func (t *c03Table) parser() *parser2.Parser[string] {
+	if len(t.Decls) > 0 {
+		return t.funcGenParser()
+	}
 	p := parser2.NewParser[string]().
 		SetNumberParser(parser2.NumberParserFunc[string](c03NumberParser)).
 		SetStringConverter(parser2.StringConverterFunc[string](func(s string) string { return "s:" + s }))
@@ -642,6 +710,7 @@ func (cr *c03Runner) run(c *c03Case) {
 	var toks []parser2.VerifPTok
 	var dump string
 	var fragAst parser2.AST
+	actualOps := t.Ops
 	outcome := "ok"
 	func() {
 		defer func() {
@@ -667,6 +736,7 @@ func (cr *c03Runner) run(c *c03Case) {
 			return
 		}
 		p := t.parser()
+		actualOps, _, _, _ = p.VerifParseConfig()
 		toks = p.VerifParseTokens(c.Text)
 		ast, err := p.Parse(c.Text, t.idents(c.WithMap))
 		if err != nil {
@@ -706,7 +776,16 @@ func (cr *c03Runner) run(c *c03Case) {
 	if t.Value {
 		ids = c03ValueCoqIdents(c.WithMap)
 	}
-	cr.cw.Add(fmt.Sprintf("(%d, mkIn %s %s %s %s %d %s, %s)", id, c03CoqStrs(t.Ops), c03CoqStrs(t.Unary), ids, CoqList(tl), c.Kind, cert, obs))
+	var hist []string
+	for _, d := range t.Decls {
+		anchor := ""
+		if d.API == "AddOpBehind" {
+			anchor = d.Anchor
+		}
+		hist = append(hist, "("+CoqStr(anchor)+", "+CoqStr(d.Op)+")")
+	}
+	cr.cw.Add(fmt.Sprintf("(%d, mkIn %s %s %s %s %d %s %s %s, %s)", id, c03CoqStrs(t.Ops), c03CoqStrs(t.Unary), ids, CoqList(tl), c.Kind, cert,
+		c03CoqStrs(actualOps), CoqList(hist), obs))
 
 	sig := ""
 	human := map[string]any{"text": c.Text, "ops": t.Ops, "unary": t.Unary, "kind": kindName, "observed": outcome + ": " + dump, "repro": c, "note": c.Note}
@@ -717,6 +796,11 @@ func (cr *c03Runner) run(c *c03Case) {
 	}
 	// ---- Go-side oracle
 	switch {
+	case len(t.Decls) > 0 && outcome != "panic" && strings.Join(actualOps, "\x00") != strings.Join(t.Ops, "\x00"):
+		human["declarations"] = t.Decls
+		viol("the parser's operator order differs from the order the table-construction API (AddOp*, AddOpBehind) promises",
+			"table-order", strings.Join(t.Ops, " "))
+		human["observed_table"] = strings.Join(actualOps, " ")
 	case outcome == "panic":
 		viol("Parse panicked", "panic:"+kindName, "an AST or an error")
 	case c.Kind == 0:
@@ -1085,12 +1169,80 @@ func c03Levels(n *c03Rt) int {
 	return len(lv)
 }
 
+// a table built through the generator API: random declarations, the promised order computed here
+func (r *Rng) c03FuncGenTable() *c03Table {
+	t := &c03Table{Alias: map[string]string{}, Idents: c03BaseIdents}
+	n := 2 + r.Pick(7)
+	perm := r.Perm(len(c03Pool))
+	var have []string
+	for i := 0; i < n; i++ {
+		op := c03Pool[perm[i]]
+		d := c03Decl{Op: op}
+		switch {
+		case i > 0 && r.Chance(0.55):
+			d.API = "AddOpBehind"
+			if !r.Chance(0.12) {
+				d.Anchor = have[r.Pick(len(have))]
+			}
+		default:
+			d.API = []string{"AddOp", "AddOpImpl", "AddOpPure", "AddSimpleOp"}[r.Pick(4)]
+		}
+		t.Decls = append(t.Decls, d)
+		have = append(have, op)
+	}
+	t.Ops = c03Promised(t.Decls)
+	for i, nu := 0, r.Pick(3); i < nu; i++ {
+		u := t.Ops[r.Pick(len(t.Ops))]
+		if r.Chance(0.3) {
+			u = c03Pool[perm[n+r.Pick(len(c03Pool)-n)]]
+		}
+		if !pgContains(t.Unary, u) {
+			t.Unary = append(t.Unary, u)
+		}
+	}
+	sort.Strings(t.Unary)
+	return t
+}
+
+// trees that mix an operator declared with AddOpBehind with its anchor and its neighbours
+func (t *c03Table) c03AnchorTrees() []*c03Rt {
+	id := func(s string) *c03Rt { return &c03Rt{K: "ident", S: s} }
+	bin := func(j int, l, r *c03Rt) *c03Rt { return &c03Rt{K: "bin", J: j, L: l, R: r} }
+	var out []*c03Rt
+	for _, d := range t.Decls {
+		if d.API != "AddOpBehind" || d.Anchor == "" {
+			continue
+		}
+		la, lo := t.levelOf(d.Anchor), t.levelOf(d.Op)
+		out = append(out, bin(la, id("a"), bin(lo, id("b"), id("c"))), bin(la, bin(lo, id("a"), id("b")), id("c")),
+			bin(lo, bin(la, id("a"), id("b")), id("c")), bin(lo, id("a"), bin(la, id("b"), id("c"))))
+		if lo+1 < len(t.Ops) {
+			out = append(out, bin(lo, id("a"), bin(lo+1, id("b"), id("c"))), bin(lo+1, bin(lo, id("a"), id("b")), id("c")))
+		}
+		if pgContains(t.Unary, d.Anchor) {
+			out = append(out, &c03Rt{K: "un", S: d.Anchor, L: bin(lo, id("a"), id("b"))}, bin(lo, &c03Rt{K: "un", S: d.Anchor, L: id("a")}, id("b")))
+		}
+	}
+	return out
+}
+
 func (cr *c03Runner) corpus() {
 	r := NewRng(7)
 	id := func(s string) *c03Rt { return &c03Rt{K: "ident", S: s} }
 	num := func(s string) *c03Rt { return &c03Rt{K: "num", S: s} }
 	// known-bad first: prefix operator = highest-priority binary operator (panicked before the fix),
 	// and the empty operator table (panicked in parseOp)
+	// a table built through the generator API: + - * ^ and then AddOpBehind("*", "%"): the promised table is + - * % ^
+	tb := &c03Table{Unary: []string{"-"}, Alias: map[string]string{}, Idents: c03BaseIdents,
+		Decls: []c03Decl{{API: "AddOp", Op: "+"}, {API: "AddOpImpl", Op: "-"}, {API: "AddSimpleOp", Op: "*"}, {API: "AddOpPure", Op: "^"}, {API: "AddOpBehind", Anchor: "*", Op: "%"}}}
+	tb.Ops = c03Promised(tb.Decls)
+	for _, tree := range tb.c03AnchorTrees() {
+		for mode := 0; mode < 3; mode++ {
+			c, _ := cr.rendering(r, tb, tree, mode, false)
+			c.Note = "corpus: table built with AddOpBehind(\"*\", \"%\"); " + c.Note
+			cr.run(c)
+		}
+	}
 	t1 := &c03Table{Ops: []string{"+", "-"}, Unary: []string{"-"}, Alias: map[string]string{}, Idents: c03BaseIdents}
 	for _, tree := range []*c03Rt{
 		{K: "un", S: "-", L: num("1")},
@@ -1133,7 +1285,7 @@ func (cr *c03Runner) corpus() {
 func cmdC03(seed int64, tier, outDir string) {
 	r := NewRng(seed)
 	sum := NewSummary("C03", seed, tier)
-	sum.Rule = "random operator tables (1..16 binary operators from a pool of 43 spellings with prefix overlaps, 0..3 prefix operators of which some are also binary incl. the highest level, optional text aliases) x expression trees of depth <= 6 (binary, prefix, member, method call, call, index, list) x {minimal, random-redundant, full} parenthesisation, parsed by the real parser; plus single-token deletions/insertions of the minimal rendering and generated/mutated programs of the full grammar over the value-language table. Non-trivial = a (table, tree) pair whose tree uses >= 3 distinct priority levels and whose minimal and full parenthesisation differ; distinct by table and fully parenthesised text"
+	sum.Rule = "random operator tables (1..16 binary operators from a pool of 43 spellings with prefix overlaps, 0..3 prefix operators of which some are also binary incl. the highest level, optional text aliases) x expression trees of depth <= 6 (binary, prefix, member, method call, call, index, list) x {minimal, random-redundant, full} parenthesisation, parsed by the real parser; plus tables built through the generator API (funcGen AddOp / AddOpImpl / AddOpPure / AddSimpleOp / AddOpBehind with every existing operator or \"\" as anchor, AddUnary / AddUnaryFunc, then GetParser): the parser's operator order must be the promised one (Go and Coq: build_table) and programs mixing the new operator with its anchor and neighbours must group by the promised table; plus single-token deletions/insertions of the minimal rendering and generated/mutated programs of the full grammar over the value-language table. Non-trivial = a (table, tree) pair whose tree uses >= 3 distinct priority levels and whose minimal and full parenthesisation differ; distinct by table and fully parenthesised text"
 	cw := NewCaseWriter(outDir, "From P2 Require Import Base.Prelude Lex.Token Syn.Ast Syn.Parse Syn.Render Run.C03Run.", "c03_case", "c03_id", "c03_im", "c03_is", 300)
 	cr := &c03Runner{sum: sum, cw: cw}
 
@@ -1173,9 +1325,9 @@ func cmdC03(seed int64, tier, outDir string) {
 
 	cr.corpus()
 
-	tables, exprs, muts, progs := 30, 5, 10, 120
+	tables, exprs, muts, progs, fgTables := 30, 5, 10, 120, 10
 	if tier == "thorough" {
-		tables, exprs, muts, progs = 1500, 12, 40, 6000
+		tables, exprs, muts, progs, fgTables = 1500, 12, 40, 6000, 600
 	}
 	tables *= optBoost
 	progs *= optBoost
@@ -1321,6 +1473,34 @@ func cmdC03(seed int64, tier, outDir string) {
 			for _, d := range mixd[:nd] {
 				sum.Count("mutation", d.kind)
 				cr.run(&c03Case{Table: t, Text: r.c03Text(t, d.toks), Kind: 1, Note: d.note})
+			}
+		}
+	}
+
+	// tables built through the generator API (AddOp, AddOpImpl, AddOpPure, AddSimpleOp, AddOpBehind with every kind of anchor)
+	for ti := 0; ti < fgTables*optBoost; ti++ {
+		t := r.c03FuncGenTable()
+		sum.Count("table_construction", "funcGen API")
+		for _, d := range t.Decls {
+			api := d.API
+			if api == "AddOpBehind" && d.Anchor == "" {
+				api = "AddOpBehind(\"\")"
+			}
+			sum.Count("table_declarations", api)
+		}
+		trees := t.c03AnchorTrees()
+		if len(trees) > 6 {
+			r.Shuffle(len(trees), func(i, j int) { trees[i], trees[j] = trees[j], trees[i] })
+			trees = trees[:6]
+		}
+		for e := 0; e < 3; e++ {
+			trees = append(trees, r.c03Expr(t, 2+r.Pick(4)))
+		}
+		for _, tree := range trees {
+			for mode := 0; mode < 3; mode++ {
+				c, _ := cr.rendering(r, t, tree, mode, false)
+				c.Note = "table built through the funcGen API; " + c.Note
+				cr.run(c)
 			}
 		}
 	}
